@@ -154,7 +154,7 @@ C("C08", "TestC08", P(3000), P(8000, 16, 2400), pkg="conc", flavour="inst",
   exhaustive_part="thorough tier: the C04 pre-emption enumerations re-run with the M8 monitor")
 
 C("C10", "TestC10", P(3000), P(8000, 16, 2400), pkg="conc", flavour="inst",
-  rule="engine of C04 with a reading/reloading process (Open, Read, Add, AutoCompact) and 1..3 writers (Add, CompactAll, range compactions, AutoCompact, multi-table Addition, expiry); windowed schedules biased to pre-empt the reader inside its open/reload; a 'reload churn' family (a reloader whose every Add is stale against one writer alternating partial compactions and additions, under segment / operation-aligned schedules with pre-emptions); in a fifth of the cases the 'cancelling transactions' family (three names, half deletions, no logs: compactions with an empty result, i.e. list versions that bring no new table); a fixed slice of 192 enumerated single pre-emption schedules; "
+  rule="engine of C04 with a reading/reloading process (Open, Read, Add, AutoCompact) and 1..3 writers (Add, CompactAll, range compactions, AutoCompact, multi-table Addition, expiry); windowed schedules biased to pre-empt the reader inside its open/reload; a 'reload churn' family (a reloader whose every Add is stale against one writer alternating partial compactions and additions, under segment / operation-aligned schedules with pre-emptions); with a 'tail' sub-family (bottom merge, k additions, reader pre-empted between reading the list and its last opens while the newest two tables are merged); in a fifth of the cases the 'cancelling transactions' family (three names, half deletions, no logs: compactions with an empty result, i.e. list versions that bring no new table); a fixed slice of 192 enumerated single pre-emption schedules; "
        "oracle M10 after every completed call of every handle: a full scan through Merged() succeeds, Stack.String() names exactly one version of tables.list, the scan equals that version's state decoded from disk by specdec, and the version never decreases; "
        "non-trivial = a table named in a process's last read of the list was unlinked by another process, or a handle read after tables it holds were deleted; distinct = hash of the case JSON",
   technique="property-based testing over schedules: snapshot-consistency monitor against the history of list versions decoded independently",
